@@ -149,6 +149,7 @@ Reach_GapAfterPruneJump == ~(\E e \in store : e.prune /\ e.seq > 0 /\ ~\E p \in 
 (* Option sets for the configs (cfg files cannot write tuples)              *)
 AllPositions == Author \X Log \X (0..MaxSeq)
 FirstAuthorPositions == {p \in AllPositions : p[1] = "a1"}
+LastOfFirstAuthor == {p \in AllPositions : p[1] = "a1" /\ p[3] = MaxSeq}
 NoPositions == {}
 AllClasses == {"BadSig", "BadVersion", "PayloadInfoInconsistent", "BacklinkSeqInconsistent",
                "BodyMismatch", "ClaimOtherAuthor", "PruneFlipped", "SeqChanged",
